@@ -86,6 +86,12 @@ theorem xmembers_plain_text (ms : List (Gap × Quote × List StrItem × Gap × G
       ih (g1, .dq, k, g2, g3, d, g4) (by simp) hok.1.1.2 pd, ihr (fun e he => ih e (by simp [he])) hok.2 pr]
     rfl
 
+/-- a number without number extensions is the RFC 8259 number it stands for -/
+theorem xnum_plain_text (n : XNum) (hp : n.plain = true) : n.text = n.base.text := by
+  simp only [XNum.plain, Bool.and_eq_true, beq_iff_eq] at hp
+  have hb : n.bare = none := by cases h : n.bare <;> simp_all
+  simp [XNum.text, XNum.lit, hp.1, hb, bareText, Num.text]
+
 /-- a plain extended document is the RFC 8259 document it stands for -/
 theorem xdoc_plain_text : ∀ (x : XDoc), x.ok = true → x.plain = true → x.text = x.erase.text := by
   intro x
@@ -96,7 +102,7 @@ theorem xdoc_plain_text : ∀ (x : XDoc), x.ok = true → x.plain = true → x.t
     simp only [XDoc.plain] at hp
     simp only [XDoc.text, capsText_plain k.word caps hok hp]
     cases k <;> rfl
-  | hnum n => intro _ _; rfl
+  | hnum n => intro _ hp; simpa [XDoc.text, XDoc.erase, Doc.text] using xnum_plain_text n (by simpa [XDoc.plain] using hp)
   | hstr q items =>
     intro _ hp
     simp only [XDoc.plain, Bool.and_eq_true, beq_iff_eq] at hp
@@ -160,7 +166,7 @@ theorem xdoc_erase_ok : ∀ (x : XDoc), x.ok = true → x.plain = true → x.era
   intro x
   induction x using xdoc_induct with
   | hlit k caps => intro _ _; cases k <;> rfl
-  | hnum n => intro hok _; simpa [XDoc.ok, XDoc.erase, Doc.ok] using hok
+  | hnum n => intro hok _; exact (xnum_ok_parts n (by simpa [XDoc.ok] using hok)).1
   | hstr q items =>
     intro _ hp
     simp only [XDoc.plain, Bool.and_eq_true] at hp
